@@ -11,7 +11,7 @@ LEVEL_TEXT = (
     'label is the dequeued depth + 1 and initial states have depth 1; the share-out keeps the local '
     'queue order. Minimality itself is the textbook consequence for one thread and is not computed.')
 
-FLOORS = {'C13-R1': 2, 'C13-R2': 3, 'C13-R3': 2, 'C13-R4': 2, 'C13-R5': 1, 'C13-R6': 1, 'C01-R4': 5}
+FLOORS = {'C13-R1': 2, 'C13-R2': 3, 'C13-R3': 2, 'C13-R4': 2, 'C13-R5': 1, 'C13-R6': 1, 'C01-R4': 5, 'C01-R3': 3}
 
 ENDS = {'pop_back': 'back', 'pop_front': 'front', 'push_back': 'back', 'push_front': 'front'}
 
@@ -147,6 +147,12 @@ def run(ctx):
                       'Model::actions or a sanctioned exit')
     with ctx.rule('C01-R4', 'BFS'):
         c01.r4_expand_or_sanctioned(ctx, _CB(F, 'BFS'))
+    # "shortest among the in-boundary paths from an initial state": the search starts from the in-boundary initial
+    # states only and never steps outside the boundary
+    ctx.doc('C01-R3', 'BFS: enqueue/arbitration are dominated by within_boundary(successor)=true; the initial states '
+                      'are filtered by within_boundary before they are counted, marked and queued')
+    with ctx.rule('C01-R3', 'BFS'):
+        c01.r3_boundary(ctx, F, _CB(F, 'BFS'))
 
     ctx.doc('C13-R5', 'single-thread order preservation: the BFS worker hands part of its queue to the market '
                       'only when thread_count > 1, or the broker splits off at most (thread_count - open_count) '
